@@ -16,6 +16,9 @@ observed : cwres/swres=<w>.<j>.<n>.<err>,…   result of every Write / WriteTo c
            call=<r> close=<r>                 (silent) the parked call and the Close that must unblock it
            call=<r> set=<r>                   (stall) the call parked in the transport and the deadline setter /
                                               Close issued from another goroutine (`-` = never returned)
+           call=<r> pend=<r>,… set=<r>        (pafirst) the first call of the adapter's object parked on a client that sent k
+                                              bytes, the calls queued behind it, and the Close / deadline setter issued
+                                              from another goroutine (`-` = had not returned when the watchdog fired)
            ran=<n> res=… echo same swres sstream  (switch) the first suspicious of n first-use trials, else the last
            dead=0|1 panic=<msg|-> races=<n|na> sites=<…>
 
@@ -27,6 +30,7 @@ reports.  The stream checks run the VERIFIED checker `Spec.Locks.isWholeInterlea
 -/
 import Gotlcp.Oracle.Common
 import Gotlcp.Model.Locks
+import Gotlcp.Model.LocksPA
 import Gotlcp.Spec.LocksSpec
 import Gotlcp.Generated.Facts
 
@@ -151,6 +155,24 @@ def judge (c o : String) : Option Verdict := do
         (if call == "ok" then some ("close-unblock", "the call parked in the transport reported success after Close") else none)
       else if call == "timeout" then none
       else some ("deadline-unblock", s!"the call parked in the transport returned {call}, not a timeout, after its deadline had passed")
+    else if scen == "wake" then
+      -- a Read interrupted by a deadline setter from another goroutine, then resumed: every call is
+      -- concurrency-safe per net.Conn, so the reader must still get exactly what was written
+      let got := (kv ot "got").getD "-"
+      if got == "ok" || got == "-" then none
+      else some ("lost-on-wake", s!"a Read parked in the transport with part of a record taken was woken by a deadline setter from another goroutine (it returned {(kv ot "wake").getD "?"}), set a new deadline and read on: it got {got} instead of the 200 bytes written — bytes were lost between the two Reads")
+    else if scen == "pafirst" then
+      let call := (kv ot "call").getD "-"
+      let pend := items ((kv ot "pend").getD "-")
+      let how := (kv ct "how").getD "?"
+      let queued := ((kv ct "pend").getD "-").toList
+      -- a queued Read / Write (not the getters ProtectedConn, LocalAddr / RemoteAddr) cannot have succeeded either: the client never completes anything
+      let queuedOk := ((queued.zip pend).filter fun (q, r) => (q == 'R' || q == 'W') && r == "ok").length
+      if call == "-" || (kv ot "set").getD "-" == "-" || pend.contains "-" then none
+      else if call == "ok" || queuedOk > 0 then
+        some ("close-unblock", s!"a call pending on a silent client reported success after {Model.LocksPA.unblockerOf how}: call={call} pend={pend}")
+      else if how == "close" || call == "timeout" then none
+      else some ("deadline-unblock", s!"the parked first call returned {call}, not a timeout, after its deadline had passed")
     else if scen == "first" then
       let chs := items ((kv ot "chs").getD "-")
       let shs := items ((kv ot "shs").getD "-")
@@ -210,20 +232,35 @@ def judge (c o : String) : Option Verdict := do
   let admitted := match protocol with
     | none => true
     | some (tag, _) => (tag == "torn" && !atomicWrite stack) || (tag == "hs-differ" && !recheck stack)
-  let modelOk := dead == "0" && pan == "-" && admitted
+  -- scenario pafirst: does the extracted program of the unblocking call get past the parked first call?
+  let paMethod := if (kv ct "call") == some "write" then "Write" else "Read"
+  let paK := ((kv ct "k").bind String.toNat?).getD 0
+  let paHow := (kv ct "how").getD "close"
+  let paHangs := scen == "pafirst" && setup.isNone &&
+    !Model.LocksPA.pafirstReturns Facts.pa.swProgs Facts.pa.swUnblockers Facts.pa.headerLen paMethod paK paHow
+  let setTok := (kv ot "set").getD "-"
+  let modelOk := (if paHangs then dead == "1" && setTok == "-" else dead == "0") && pan == "-" && admitted
   -- model prediction in observation syntax: the observation itself when it is one of the
   -- behaviours the lock model admits, otherwise the violated clause
   let model :=
     if modelOk then o
+    else if paHangs then
+      s!"set=- dead=1 (the extracted {Model.LocksPA.unblockerOf paHow} acquires a mutex that the parked first {paMethod} holds)"
     else if dead != "0" then
-      (if scen == "stall" then "dead=0 (a deadline setter / Close needs no mutex held across transport I/O: C13_deadline_setters_never_wait, C13_close_never_waits_for_handshake)"
+      (if scen == "pafirst" then "dead=0 (Close / a deadline setter of the adapter's object needs no mutex held across anything blocking: C13_pa_unblockers_never_wait, C13_pa_parked_call_can_be_unblocked)"
+       else if scen == "stall" then "dead=0 (a deadline setter / Close needs no mutex held across transport I/O: C13_deadline_setters_never_wait, C13_close_never_waits_for_handshake)"
        else "dead=0 (the lock protocol has no reachable deadlock: C13_lock_order_acyclic)")
     else if pan != "-" then "panic=-"
     else match protocol with
       | some (tag, _) => s!"no-{tag}"
       | none => o
   let spec : Option (String × String) :=
-    if dead != "0" then some ("deadlock", "goroutines did not finish within the watchdog")
+    if dead != "0" && scen == "pafirst" && setup.isNone then
+      some ("deadlock",
+        if setTok == "-" then
+          s!"{Model.LocksPA.unblockerOf paHow} on the adapter's connection did not return while its first {paMethod} was parked on a client that had sent {paK} byte(s): it waits behind the call it is meant to unblock"
+        else s!"calls pending on the adapter's connection did not come back after {Model.LocksPA.unblockerOf paHow} had returned: call={(kv ot "call").getD "?"} pend={(kv ot "pend").getD "?"}")
+    else if dead != "0" then some ("deadlock", "goroutines did not finish within the watchdog")
     else if pan != "-" then some ("panic", pan)
     else match protocol with
       | some p => some p
